@@ -644,6 +644,7 @@ func ruleVersReject(p *Prog, r *Report) {
 		if insts := instancesOf(p, nc); len(insts) > 0 {
 			fn := insts[0]
 			var calls []*ssa.Call
+			textOf := map[*ssa.Call]ssa.Value{}
 			for _, b := range fn.Blocks {
 				for _, ins := range b.Instrs {
 					if c, ok := ins.(*ssa.Call); ok {
@@ -656,11 +657,19 @@ func ruleVersReject(p *Prog, r *Report) {
 						}
 						if name == "NewVersion" && len(args) == 1 {
 							calls = append(calls, c)
+							textOf[c] = args[0]
+						} else if g := c.Call.StaticCallee(); g != nil && p.IsRepoFn(g) {
+							// the call of NewVersion extracted into a helper that hands one of its own
+							// parameters to it: the call site's argument is the text that reaches the parser
+							if i := newVersionParam(g); i >= 0 && i < len(c.Call.Args) {
+								calls = append(calls, c)
+								textOf[c] = c.Call.Args[i]
+							}
 						}
 					}
 				}
 			}
-			argOf := func(c *ssa.Call) ssa.Value { return c.Call.Args[len(c.Call.Args)-1] }
+			argOf := func(c *ssa.Call) ssa.Value { return textOf[c] }
 			okVer, okOp := len(calls) > 0, len(calls) > 0
 			whyOp := ""
 			for _, c := range calls {
@@ -1021,4 +1030,37 @@ var _ = strings.TrimSpace
 
 func init() {
 	register("C17", "VERS input validation and routing as structural facts: (R-VERS-ROUTE) the scheme dispatch table maps each of the 11 scheme names to a function that creates only the expected ecosystem's Ecosystem value and forwards (constraints, version) to the generic containment routine; (R-VERS-LABELS) toRanges has a case for the Name() of every routed ecosystem; (R-VERS-REJECT) each syntactic condition of the statement is tested in valid()/normalizeConstraints on every path to acceptance with an error on its failing edge; (R-ERRPROP) no error returned by a repo callee is dropped in pkg/spec/vers or cmd; with C06's R-ERRFALSE (error => false).", ruleVersRoute, ruleVersLabels, ruleVersReject, ruleErrProp, ruleErrFalse)
+}
+
+// newVersionParam: the index of the parameter of g that g hands, unchanged, to an ecosystem's NewVersion
+// (-1 when there is none)
+func newVersionParam(g *ssa.Function) int {
+	if g.Blocks == nil {
+		return -1
+	}
+	for _, b := range g.Blocks {
+		for _, ins := range b.Instrs {
+			c, ok := ins.(*ssa.Call)
+			if !ok {
+				continue
+			}
+			var text ssa.Value
+			if c.Call.IsInvoke() {
+				if c.Call.Method.Name() == "NewVersion" && len(c.Call.Args) == 1 {
+					text = c.Call.Args[0]
+				}
+			} else if h := c.Call.StaticCallee(); h != nil && h.Signature.Recv() != nil && h.Name() == "NewVersion" && len(c.Call.Args) == 2 {
+				text = c.Call.Args[1]
+			}
+			if text == nil {
+				continue
+			}
+			for i, q := range g.Params {
+				if ssa.Value(q) == text {
+					return i
+				}
+			}
+		}
+	}
+	return -1
 }
